@@ -49,6 +49,7 @@ type World struct {
 	loopSpecs   map[string]*Contract
 	locSets     map[string][]string
 	typeInvs    map[string][]*typeInvInfo // by typeKey of the pointer's element type
+	scans       []*ScanDecl
 }
 
 type typeInvInfo struct {
